@@ -317,6 +317,8 @@ class Envelope:
                 )
         if self.measured:
             raise ValueError("Envelope has already been destroyed")
+        if any(s.measured for s in states if s is not None):
+            raise ValueError("Given states have already been destructively measured")
 
         # Check if given states are part of this envelope
         for s in states:
@@ -325,7 +327,10 @@ class Envelope:
         outcomes = {}
         reshape_shape = []
         if self.state is None:
-            to_measure: List[Any] = [self.polarization, self.fock]
+            # A member destroyed by an earlier separate measurement is skipped
+            to_measure: List[Any] = [
+                s for s in (self.polarization, self.fock) if not s.measured
+            ]
             if separate_measurement and len(states) == 1:
                 to_measure = [states[0]]
             for s in to_measure:
